@@ -3,6 +3,8 @@ import SunriseVerif.Model.Shards
 import SunriseVerif.Model.Zk
 import Mathlib.LinearAlgebra.Vandermonde
 import Mathlib.LinearAlgebra.Matrix.NonsingularInverse
+import Mathlib.LinearAlgebra.FiniteDimensional.Lemmas
+import Mathlib.LinearAlgebra.Matrix.ToLin
 /-! Helper lemmas and abstract definitions for C20 (padding arithmetic, Fisher–Yates invariant, PCG range facts,
     the Vandermonde-derived generator over an arbitrary field). The property theorems are in `Props/C20.lean`. -/
 namespace Sunrise.C20
@@ -247,6 +249,21 @@ theorem gen_rows (a : Fin n → F) (hk : k ≤ n) (rows : Fin k → Fin n) :
   rfl
 
 end Code
+
+section
+open Matrix
+variable {F : Type*} [Field F]
+/-- a `j × k` matrix with `j < k` kills some non-zero vector -/
+theorem exists_ker_of_lt {j k : ℕ} (A : Matrix (Fin j) (Fin k) F) (hj : j < k) :
+    ∃ v : Fin k → F, v ≠ 0 ∧ A.mulVec v = 0 := by
+  have hk : LinearMap.ker (Matrix.mulVecLin A) ≠ ⊥ := by
+    apply LinearMap.ker_ne_bot_of_finrank_lt
+    simpa using hj
+  obtain ⟨v, hv, hv0⟩ := Submodule.exists_mem_ne_zero_of_ne_bot hk
+  exact ⟨v, hv0, by simpa using hv⟩
+
+
+end
 
 /-! ### `ErasureCode` ∘ `JoinShards` helpers -/
 section
